@@ -25,7 +25,9 @@ import (
 const issuer = "https://op.example.com"
 const client = "client-a"
 
-var algs = []string{"RS256", "RS256", "ES256", "PS256", "RS384", "RS512", "PS384", "PS512", "ES384", "ES512", "EdDSA"}
+// every algorithm gets the same share of the cases (round robin), so that each
+// hash selection for at_hash is exercised in the quick tier too
+var algs = []string{"RS256", "ES256", "PS256", "RS384", "RS512", "PS384", "PS512", "ES384", "ES512", "EdDSA"}
 
 func halfHash(alg, at string) (half, full string) {
 	var sum []byte
@@ -54,7 +56,7 @@ func main() {
 	ctx := context.Background()
 
 	for i := 0; i < n; i++ {
-		alg := drv.Pick(r, algs)
+		alg := algs[i%len(algs)]
 		signer := drv.Pick(r, pool.ForAlg(alg))
 		kid := drv.Pick(r, []string{"k1", "k1", "k2", ""})
 		ext := fmt.Sprintf("x%d", r.IntN(100000))
@@ -332,7 +334,7 @@ func main() {
 			Human: map[string]any{"token": t.Raw, "access_token": at, "claims": c, "verifier": v}})
 	}
 	err := w.Close(emit.Meta{Property: "C01", Tier: cfg.Tier, Seed: cfg.Seed,
-		Rule: "flow first: an all-correct ID token (claims with margins, really signed with a swept algorithm, key published in a remote key set) for a random verifier configuration (offset 0/1s/-1s/5s, max iat age, max auth age, nonce nil/empty/fixed, acr list, allow-list), then 0-3 claim dimensions mutated (absent / wrong / near miss; times at -3..+3 s around each boundary incl. offset and max ages), 1/8 with a signature-level mutation; half through rp.VerifyTokens with at_hash correct / absent / wrong / full hash / other token / other hash. Non-trivial = model path != 0 (anything but a ParseToken reject); distinct = distinct input term.",
+		Rule:  "flow first: an all-correct ID token (claims with margins, really signed with a swept algorithm, key published in a remote key set) for a random verifier configuration (offset 0/1s/-1s/5s, max iat age, max auth age, nonce nil/empty/fixed, acr list, allow-list), then 0-3 claim dimensions mutated (absent / wrong / near miss; times at -3..+3 s around each boundary incl. offset and max ages), 1/8 with a signature-level mutation; half through rp.VerifyTokens with at_hash correct / absent / wrong / full hash / other token / other hash. Non-trivial = model path != 0 (anything but a ParseToken reject); distinct = distinct input term.",
 		Extra: map[string]any{"clock_ambiguous": amb}})
 	if err != nil {
 		fmt.Fprintln(os.Stderr, err)
